@@ -124,10 +124,23 @@ def is_abandoned(data, path):
     return cur is None
 
 
+# When True, work that the executor has abandoned without cancelling it (awaitables of a
+# selection set that was nulled by a *synchronous* error are left to `settle_in_background`; they
+# stay pending until the environment completes them) also counts as a violation of "the whole
+# subtree completed".  On the pinned tree this happens (see ASSUMPTIONS of checks/c03.py); it is
+# reported in the evidence (`serial_background_overlaps`) instead.
+STRICT_BACKGROUND = False
+
+
 def mutation_serial(case, events, data, root_order):
-    """Root fields start in document order; when root field j starts, nothing of an earlier
-    root subtree is pending or happens later, except abandoned work below a nulled position."""
-    out = []
+    """Strict reading of the serial clause: root fields start in document order, and when root
+    field j starts, every resolver coroutine / awaitable of every earlier root subtree has
+    finished - normally, by raising, or by a cancellation whose unwinding (`finally`, awaited
+    cleanup) has run to the end - and nothing of an earlier subtree happens afterwards.
+
+    Returns (violations, background) where `background` lists the overlaps that consist only of
+    abandoned, never cancelled work below a position that is null in the response."""
+    out, background = [], []
     starts = [(n, e[1][0]) for n, e in enumerate(events) if e[0] == "S" and len(e[1]) == 1]
     order = [rk for _, rk in starts]
     if len(set(order)) != len(order):
@@ -135,30 +148,68 @@ def mutation_serial(case, events, data, root_order):
     want = [rk for rk in root_order if rk in order]
     if order != want:
         out.append(("mutation-order", "root fields not started in document order", {"started": order, "document": root_order}))
-    start_at = {rk: n for n, rk in starts}
-    # pending handles per time
-    created = {}
-    settled = {}
+    info = {}
     for n, e in enumerate(events):
         if e[0] == "H":
-            created[e[1]] = (n, e[3])
-        elif e[0] in ("R", "C"):
-            settled.setdefault(e[1], n)
+            info[e[1]] = {"created": n, "path": e[3], "kind": e[4]}
+        elif e[0] in ("R", "C", "B", "X", "E"):
+            info[e[1]].setdefault(e[0], n)
+    inf = 10**9
+
+    def discarded_predicate(h, nj):
+        """An awaitable is_type_of result that type resolution did not wait for (the default type
+        resolver found a synchronously matching type and only tracks the others): the executor
+        has called is_type_of for the same position and an already asked type again - the check
+        of the resolved type in complete_object_value - while this result was still pending."""
+        if h["kind"] != "ito":
+            return False
+        asked = set()
+        for n in range(h["created"] + 1, min(nj, h.get("R", inf), h.get("C", inf), len(events))):
+            e = events[n]
+            if e[0] == "I" and e[1] == h["path"]:
+                if e[2] in asked or e[2] == h.get("type"):
+                    return True
+                asked.add(e[2])
+        return False
+
+    for n, e in enumerate(events):
+        # the type a predicate handle was asked for: the I event right before its creation
+        if e[0] == "H" and e[4] == "ito" and n > 0 and events[n - 1][0] == "I":
+            info[e[1]]["type"] = events[n - 1][2]
     for j, (nj, rkj) in enumerate(starts):
         earlier = {rk for _, rk in starts[:j]}
-        # still pending handles of earlier subtrees
-        for seq, (nc, path) in created.items():
-            if nc < nj and settled.get(seq, 10**9) > nj and path and path[0] in earlier:
-                if not is_abandoned(data, path):
-                    out.append(("mutation-overlap", f"root field {rkj} started while an awaitable of {path[0]} was pending", {"pending": path, "started": rkj}))
+        for seq, h in info.items():
+            path = h["path"]
+            if h["created"] > nj or not path or path[0] not in earlier:
+                continue
+            if "B" in h and h["B"] < nj:
+                finished = h.get("E", inf)  # a resolver coroutine has finished when its body has
+            else:
+                finished = min(h.get("R", inf), h.get("C", inf))
+            if finished < nj:
+                continue
+            cancelled = min(h.get("C", inf), h.get("X", inf)) < nj
+            detail = {"awaitable": path, "kind": h["kind"], "started": rkj, "cancelled_before": cancelled}
+            if cancelled:
+                out.append(("mutation-overlap", f"root field {rkj} started before a cancelled resolver of root field {path[0]} had finished unwinding", detail))
+            elif is_abandoned(data, path) or discarded_predicate(h, nj):
+                background.append(detail)
+            else:
+                out.append(("mutation-overlap", f"root field {rkj} started while a resolver of root field {path[0]} was still running", detail))
         for n in range(nj + 1, len(events)):
             e = events[n]
             if e[0] in ("S", "I", "Y"):
                 path = e[1]
-            elif e[0] in ("H", "R"):
+            elif e[0] in ("H", "B"):
                 path = e[3]
             else:
                 continue
-            if path and path[0] in earlier and not is_abandoned(data, path):
-                out.append(("mutation-overlap", f"event in subtree {path[0]} after root field {rkj} started", {"event": list(e), "started": rkj}))
-    return out[:5]
+            if path and path[0] in earlier:
+                detail = {"event": list(e), "started": rkj}
+                if is_abandoned(data, path):
+                    background.append(detail)
+                else:
+                    out.append(("mutation-overlap", f"new work in the subtree of root field {path[0]} after root field {rkj} started", detail))
+    if STRICT_BACKGROUND and background:
+        out.append(("mutation-overlap-background", "a root field started while abandoned (never cancelled) work of an earlier root field was pending", background[:3]))
+    return out[:5], background
